@@ -319,7 +319,9 @@ class RandomCharts:
         ops = []
         for _ in range(r.choice([0, 1, 1, 2])):
             x = r.random()
-            if x < 0.35:
+            if x < 0.04 and vars_:
+                ops.append(fault(r.choice(["expr", "location", "sendtype", "sendtarget", "sendtargetinvalid"])))
+            elif x < 0.35:
                 ops.append(raise_(r.choice(evs)))
             elif x < 0.55 and vars_:
                 v = r.choice(vars_)
